@@ -53,6 +53,10 @@ func (w *DBinBlockWriter) Write(block *pbbstream.Block) error {
 	if err != nil {
 		return fmt.Errorf("unable to marshal proto block: %s", err)
 	}
+	if len(bytes) == 0 {
+		// a zero-length message is what the reader takes for a damaged (zero-filled) file: it fails there and the blocks after it are lost
+		return fmt.Errorf("unable to write block: a block without any field set has an empty encoding and could not be read back")
+	}
 
 	return w.src.WriteMessage(bytes)
 }
